@@ -76,7 +76,10 @@ def encode(s, name, errors='strict'):
         enc, info = r, None
     if enc is None:
         if not isinstance(s, SSeq):
-            return info.encode(s)[0] if isinstance(name, SSeq) else s.encode(name)
+            if isinstance(name, SSeq):
+                _text_only(info, 'encode')
+                return info.encode(s)[0]
+            return s.encode(name)
         return _table_encode(s, name, info)
     s = lift(s)
     ctx = Ctx.cur
@@ -170,7 +173,10 @@ def decode(s, name, errors='strict'):
         enc, info = r, None
     if enc is None:
         if not isinstance(s, SSeq):
-            return info.decode(s)[0] if isinstance(name, SSeq) else s.decode(name)
+            if isinstance(name, SSeq):
+                _text_only(info, 'decode')
+                return info.decode(s)[0]
+            return s.decode(name)
         return _table_decode(s, name, info)
     s = lift(s)
     ctx = Ctx.cur
@@ -327,11 +333,25 @@ def _pinned(s):
     return vals
 
 
+def _text_only(info, what):
+    # str.encode / bytes.decode refuse codecs that are not text encodings (uu, hex, base64, zlib, rot13 ...)
+    if info is not None and not getattr(info, '_is_text_encoding', True):
+        raise LookupError("'%s' is not a text encoding; use codecs.%s() to handle arbitrary codecs" % (info.name, what))
+
+
 def _table_encode(s, name, info):
+    if info is None:
+        import codecs as _c
+        info = _c.lookup(name)
+    _text_only(info, 'encode')
     vals = _pinned(s)
     return info.encode(''.join(map(chr, vals)))[0]
 
 
 def _table_decode(s, name, info):
+    if info is None:
+        import codecs as _c
+        info = _c.lookup(name)
+    _text_only(info, 'decode')
     vals = _pinned(s)
     return info.decode(bytes(vals))[0]
